@@ -3,10 +3,12 @@
 //! `record` drives the real code and writes ndjson events for TLC trace validation.
 mod chunkid;
 mod common;
+mod datetime;
 mod drd;
 mod icd;
 mod estimate;
 mod latest;
+mod msghdr;
 mod search;
 mod sim;
 mod sweep;
@@ -18,6 +20,8 @@ fn main() {
     let args = Args::parse();
     match args.module.as_str() {
         "sweep" => sweep::run(&args),
+        "datetime" => datetime::run(&args),
+        "msghdr" => msghdr::run(&args),
         "drd" => drd::run(&args),
         "estimate" => estimate::run(&args),
         "chunkid" => chunkid::run(&args),
